@@ -31,6 +31,13 @@ def formula_set(tier):
     ar = [('neg', X), ('abs', X), ('sqrt', X), ('exp', X), ('ln', X), ('pow', X, Y), ('log', X, Y), ('+', X, Y), ('-', X, Y), ('*', X, Y), ('/', X, Y)]
     ar += [('*', F.C2, X), ('+', F.C1, X), ('-', F.C2, Y)]           # constants as left operands
     fs += [('pred', '<=', F.C1, X), ('until', (0, 1), ('pred', '<=', F.C1, X), F.PY)]
+    # every function over an operand that contains a literal, and over a literal alone (the literal is expanded to the length of the trace
+    # somewhere below the function)
+    inner = [('*', X, F.CH), ('+', X, F.C1), ('-', F.C2, X)]
+    for u in F.ARITH1:
+        ar += [(u, a) for a in inner]
+    for b in F.ARITH2 + F.ARITHF2:
+        ar += [(b, inner[1], F.C2), (b, F.C2, inner[0])]
     for t in ar:
         a = ('pred', '>=', t, F.C0)
         fs += [a, ('once', (0, 1), a), ('not', a), ('eventually', (0, 1), a), t]
@@ -97,6 +104,14 @@ def run_case(case):
     if shape == 'reversed':
         data_vars = data_vars[::-1]
     w = {v: [vals[(i + j) % 3] for i in range(n)] for j, v in enumerate(data_vars)}
+    try:
+        refsem.ev(f, w, n)
+        if shape == 'reevaluate_shorter':
+            refsem.ev(f, {v: [vals[(i + j) % 3] for i in range(n + 3)] for j, v in enumerate(data_vars)}, n + 3)
+    except refsem.DomainError:
+        return 'domain', 'the data leave the domain of an arithmetic function (log of base 1, sqrt of a negative number ...)', 'data'
+    except Exception:
+        pass
     if kind == 'dt_off':
         if shape == 'reevaluate_shorter':
             # the same object first sees a longer data set (legal: the offline monitors are re-usable)
@@ -132,6 +147,8 @@ def judge(case):
     f = F.from_json(case['formula'])
     sup = supported(f, case['kind'], case['pastify'])
     k, detail, stage = run_case(case)
+    if k == 'domain':
+        return None, sup      # outside the property: not well-formed data for this formula
     if sup:
         if k != 'ok':
             return 'supported combination (%s%s, data shape %s, %d samples) raised at %s: %s' % (
